@@ -218,9 +218,12 @@ Proof. exact ox_quiescent. Qed.
    IgnoreNoName, DisableOverwrite) and EVERY schedule run to completion, names,
    digestToPath, files, fallback storage and resolver are literally those of a sequential
    order of the same operations in program order, so every Fetch, Exists and Resolve
-   answers alike.  Partial: the graph (Predecessors) is not compared. *)
+   answers alike.  Partial: the graph (Predecessors) is not compared; programs use neither
+   the aliasing name (two names, two locks, one file) nor titled successors (with those the
+   restore step falls behind the store and executions are not serialisable in general). *)
 Theorem C06_quiescent_serialisable_file_partial :
   forall (fx ig ov : bool) (progs : list (list op)) (sched : list nat),
+  Forall untitled (concat progs) -> Forall no_alias (concat progs) ->
   let cf := fconf_run fx ig ov (fconf_init progs) sched in
   fquiescent cf = true ->
   exists order : list (nat * op),
@@ -251,9 +254,11 @@ Proof. exact file_fetch_matches. Qed.
 Print Assumptions C06_fetch_matches_digest_file_partial.
 
 (* repaired code: a refused or failed operation leaves the whole state (names,
-   digestToPath, files, fallback, tags, graph) unchanged, after any history *)
+   digestToPath, files, fallback, tags, graph) unchanged -- in histories without the
+   aliasing name and without titled successors ([untitled]: restoreDuplicates has nothing
+   to restore).  With titled successors the statement is refuted below (audit F1). *)
 Theorem C06_failed_noop_file_partial : forall ig ov h o,
-  Forall no_alias h -> no_alias o ->
+  Forall no_alias h -> Forall untitled h -> no_alias o -> untitled o ->
   let s := fst (runf (file_step true ig ov) file_init h) in
   fout_is_err (snd (file_step true ig ov s o)) = true -> fst (file_step true ig ov s o) = s.
 Proof. exact file_failed_noop. Qed.
@@ -289,6 +294,18 @@ Theorem C06_fetch_returns_pushed_file_refuted :
     = [FO OOk; FO (OBytes 1 5)] /\ b_len w_trailing = 6.
 Proof. exact file_trailing_witness. Qed.
 Print Assumptions C06_fetch_returns_pushed_file_refuted.
+
+(* known finding file-restore-failed-after-store: restoreDuplicates runs after the content is
+   stored; when it fails (here: a layer titled with a name outside the working directory)
+   Push returns the error, yet the manifest exists, a re-push is already-exists, and it is
+   never indexed *)
+Theorem C06_failed_noop_file_titled_refuted :
+  snd (runf (file_step true false false) file_init
+            [Push w_layer w_good; Push w_manifest w_manifest_blob; Exists w_manifest;
+             Push w_manifest w_manifest_blob; Preds w_layer])
+    = [FO OOk; FE FTraversal; FO (OBool true); FO (OErr EAlreadyExists); FO (OPreds [])].
+Proof. exact file_restore_fails_witness. Qed.
+Print Assumptions C06_failed_noop_file_titled_refuted.
 
 Theorem C06_fetch_matches_digest_file_alias_refuted :
   snd (runf (file_step true false false) file_init
